@@ -254,6 +254,9 @@ type c59Case struct {
 	Tail    int       `json:"tail"`
 	TailLen int       `json:"tail_len"`
 	TailBin bool      `json:"tail_bin"`
+	// TailCtl: the wrongly masked frame is a control frame (1 PING, 2 PONG), followed
+	// by a correctly masked text message that must not be delivered any more.
+	TailCtl int `json:"tail_ctl,omitempty"`
 }
 
 func c59IsBoundary(n int) bool { return n == 125 || n == 126 || n == 65535 || n == 65536 }
@@ -304,6 +307,7 @@ func c59Gen(t *rapid.T) c59Case {
 	if c.Tail == c59TailUnmaskedToServer || c.Tail == c59TailMaskedToClient {
 		c.TailLen = rapid.SampledFrom([]int{0, 1, 5, 125, 126, 300}).Draw(t, "tailLen")
 		c.TailBin = rapid.Bool().Draw(t, "tailBin")
+		c.TailCtl = rapid.SampledFrom([]int{0, 0, 1, 1, 2}).Draw(t, "tailCtl")
 	}
 	return c
 }
@@ -626,12 +630,36 @@ func c59Prop(c c59Case, r *vp.Rec) (err error) {
 			f.opcode = BinaryFrame
 		}
 		f.payload = bytes.Repeat([]byte{'x'}, c.TailLen)
+		if c.TailCtl == 1 || c.TailCtl == 2 {
+			f.opcode = byte(PingFrame)
+			if c.TailCtl == 2 {
+				f.opcode = byte(PongFrame)
+			}
+			f.payload = bytes.Repeat([]byte{'y'}, c.TailLen%126)
+		}
 		peerEnd.out.mark()
 		peerEnd.out.buf = append(peerEnd.out.buf, c59Encode(f)...)
+		if c.TailCtl == 1 || c.TailCtl == 2 {
+			// a well-formed message behind it: a peer that was disconnected does not get it
+			after := c59Frame{fin: true, opcode: TextFrame, masked: !f.masked, key: [4]byte{9, 8, 7, 6}, payload: []byte("after")}
+			peerEnd.out.mark()
+			peerEnd.out.buf = append(peerEnd.out.buf, c59Encode(after)...)
+		}
+		tapBefore := len(victim.end.tap)
 		var got c59Captured
 		victim.ws.MaxPayloadBytes = 0
 		if e := c59Capture.Receive(victim.ws, &got); e == nil {
-			return fmt.Errorf("%s accepted a frame with the wrong masking (masked=%v): Receive returned type %d, %d bytes and no error", victim.name, f.masked, got.typ, len(got.data))
+			return fmt.Errorf("%s accepted a frame with the wrong masking (opcode %d, masked=%v): Receive returned type %d, %d bytes and no error", victim.name, f.opcode, f.masked, got.typ, len(got.data))
+		}
+		if c.TailCtl == 1 {
+			if fs, _ := c59Parse(victim.end.tap[tapBefore:]); len(fs) > 0 {
+				for _, w := range fs {
+					if w.opcode == byte(PongFrame) {
+						return fmt.Errorf("%s answered a PING with the wrong masking (masked=%v) with a PONG instead of disconnecting", victim.name, f.masked)
+					}
+				}
+			}
+			r.Class("tail:wrong-masking-on-ping-rejected")
 		}
 		r.Class("tail:wrong-masking-rejected")
 	case c59TailClientClose:
